@@ -76,7 +76,7 @@ pub fn seq_cfg(focus: &'static str, seed: u64, index: u64, clean_only: bool) -> 
     let shards = *rng.pick(&[2usize, 2, 2, 2, 4, 4, 8, 16]);
     let shards = if rng.chance(1, 60) { 256 } else { shards };
     let pressure = match focus {
-        "C17" => true,
+        "C17" | "C06" => true,
         "C01" | "C05" | "C10" | "C16" => rng.chance(1, 2),
         "C02" => rng.chance(2, 3),
         _ => false,
@@ -140,6 +140,8 @@ fn seq_nontrivial(focus: &str, out: &SeqOut) -> bool {
         "C10" => crit("key-swept") || crit("full-cycle"),
         "C16" => c("stats_checks") >= 5,
         "C17" => out.steps_done >= 5,
+        "C06" => c("evictions") > 0 || crit("admission-rejected") || crit("overweight-rejected"),
+        "C15" => c("stats_checks") >= 5 && c("reads_returned_value") > 0,
         _ => c("structure_checks") > 0 && c("puts_accepted") > 0,
     }
 }
